@@ -533,7 +533,11 @@ fn gen_rule(p: &Program, rng: &mut Rng, knobs: &GenKnobs, name: Option<String>) 
         drop_trivial(&mut stmts);
     }
     if !has_then(&stmts) {
-        return None;
+        // a rule that only has premises is legal (it concludes nothing); keep a few of them: they
+        // flatten to a rule group without routines
+        if stmts.is_empty() || !ctx.rng.chance(1, 3) {
+            return None;
+        }
     }
     Some(Rule { name, stmts })
 }
@@ -695,6 +699,12 @@ pub fn gen_model_program(rng: &mut Rng) -> ModelProg {
     p.rels.push(Rel { name: "ga".into(), kind: RelKind::Pred, args: vec![0], result: None });
     let gb = p.rels.len();
     p.rels.push(Rel { name: "gb".into(), kind: RelKind::Pred, args: vec![0, second], result: None });
+    // global predicates that mention model elements: their tuples are not inherited, so a match
+    // that is missed for an inherited tuple cannot be papered over by inheritance
+    let gm = p.rels.len();
+    p.rels.push(Rel { name: "gm".into(), kind: RelKind::Pred, args: vec![model_sort, 0], result: None });
+    let gmm = p.rels.len();
+    p.rels.push(Rel { name: "gmm".into(), kind: RelKind::Pred, args: vec![model_sort, model_sort], result: None });
     let with_constants = rng.chance(1, 2);
     let mut constants = Vec::new();
     if with_constants {
@@ -713,7 +723,7 @@ pub fn gen_model_program(rng: &mut Rng) -> ModelProg {
     let ma = member_rels[0];
     let mut rules: Vec<Rule> = Vec::new();
     let names = ["ra", "rb", "rc", "rd", "re", "rf", "rg"];
-    let mut templates: Vec<usize> = vec![0, 2, 3];
+    let mut templates: Vec<usize> = vec![0, 2, 3, 7, 8, 9, 9];
     if has_mb && second == 0 {
         templates.extend([1, 6]);
     }
@@ -724,7 +734,9 @@ pub fn gen_model_program(rng: &mut Rng) -> ModelProg {
         templates.push(4);
     }
     rng.shuffle(&mut templates);
-    templates.truncate(rng.range(1, 4) as usize);
+    templates.truncate(rng.range(2, 5) as usize);
+    templates.sort();
+    templates.dedup();
     if with_constants {
         // dom / cod of the named morphism are derived by rules, as in subset_rules.eql
         rules.push(Rule {
@@ -776,6 +788,25 @@ pub fn gen_model_program(rng: &mut Rng) -> ModelProg {
                 Stmt::If(Atom::Pred(ma, vec![Term::App(constants[1], vec![]), v("x")])),
                 Stmt::Then(Atom::Pred(ga, vec![v("x")])),
             ],
+            7 => vec![
+                Stmt::If(Atom::Pred(ga, vec![v("x")])),
+                Stmt::If(Atom::SortOf("m".into(), model_sort)),
+                Stmt::If(Atom::Pred(ma, vec![v("m"), v("x")])),
+                Stmt::Then(Atom::Pred(gm, vec![v("m"), v("x")])),
+            ],
+            8 => vec![
+                Stmt::If(Atom::SortOf("m".into(), model_sort)),
+                Stmt::If(Atom::SortOf("n".into(), model_sort)),
+                Stmt::If(Atom::Pred(ma, vec![v("m"), v("x")])),
+                Stmt::If(Atom::Pred(ma, vec![v("n"), v("x")])),
+                Stmt::Then(Atom::Pred(gmm, vec![v("m"), v("n")])),
+            ],
+            // a member fact derived for one particular model: its codomains get it by inheritance only
+            9 => vec![
+                Stmt::If(Atom::Pred(gm, vec![v("m"), v("x")])),
+                Stmt::If(Atom::Pred(ga, vec![v("x")])),
+                Stmt::Then(Atom::Pred(ma, vec![v("m"), v("x")])),
+            ],
             5 => vec![
                 Stmt::If(Atom::SortOf("m".into(), model_sort)),
                 Stmt::If(Atom::Pred(ma, vec![v("m"), v("x")])),
@@ -810,7 +841,7 @@ pub fn gen_model_program(rng: &mut Rng) -> ModelProg {
         let _ = writeln!(text, "    pred {}({});", rel.name, args.join(", "));
     }
     let _ = writeln!(text, "}}");
-    for r in [ga, gb] {
+    for r in [ga, gb, gm, gmm] {
         let rel = &p.rels[r];
         let args: Vec<String> = rel.args.iter().map(|s| p.sorts[*s].name.clone()).collect();
         let _ = writeln!(text, "pred {}({});", rel.name, args.join(", "));
